@@ -114,3 +114,14 @@ EXPLANATION += (" Difference form (E2f-difference): Euclidean, Manhattan, Minkow
                 "algebraically equal expansion |x|^2 + |y|^2 - 2 x.y cancels catastrophically for data with a large common offset "
                 "(distinct points at distance 0, K = 1 or K > 1, negative squared distances).")
 TECHNIQUE += "; difference-form provenance rule"
+
+
+# ------------------------------------------------------------------ generic: rows/cols (outer/inner) mix-up of locally allocated buffers
+_run_pre_dimension = run
+DIMENSION_FILES = ['src/math/distance/euclidian.rs', 'src/math/distance/hamming.rs', 'src/math/distance/mahalanobis.rs', 'src/math/distance/manhattan.rs', 'src/math/distance/minkowski.rs', 'src/math/distance/mod.rs']
+
+
+def run(ck, prog):
+    _run_pre_dimension(ck, prog)
+    from sa import dimension
+    dimension.run_rule(ck, prog, set(DIMENSION_FILES))
